@@ -104,6 +104,14 @@ def dtK (β : Fin 3 → K) (dK : Fin 3 → K) (γup DDα : Fin 3 → Fin 3 → K
 def dtKVac (β : Fin 3 → K) (dK : Fin 3 → K) (γup DDα : Fin 3 → Fin 3 → K) (α A2 Ktr : K) : K :=
   lie0 β dK - (∑ i, ∑ j, γup i j * DDα i j) + α * (A2 + (1 / 3) * Ktr ^ 2)
 
+/-- [BS] (2.135) with Λ, the ADM evolution equation of the extrinsic curvature (used only as a HYPOTHESIS of the
+Layer-B theorem about `dtKtrace`; no key of the code computes it):
+`∂_tK_ij = −D_iD_jα + α(R_ij − 2K_ik K^k_j + K K_ij) − κα(S_ij − ½γ_ij(S − ρ)) − αΛγ_ij + L_βK_ij`. -/
+def dtKdown (β : Fin 3 → K) (dβ : Fin 3 → Fin 3 → K) (dKd : Fin 3 → Fin 3 → Fin 3 → K)
+    (Kd γ γup DDα Ric Sdn : Fin 3 → Fin 3 → K) (α Ktr κ ρ S Λ : K) (i j : Fin 3) : K :=
+  -DDα i j + α * (Ric i j - 2 * (∑ k, ∑ l, Kd i k * γup k l * Kd l j) + Ktr * Kd i j)
+  - κ * α * (Sdn i j - (1 / 2) * γ i j * (S - ρ)) - α * Λ * γ i j + lieDD β dβ dKd Kd i j
+
 /-- trace-free part with respect to the physical metric: `f^TF_ij = f_ij − (1/3)γ_ij γ^kl f_kl`. -/
 def tf (γ γup f : Fin 3 → Fin 3 → K) (i j : Fin 3) : K := f i j - (1 / 3) * γ i j * ∑ k, ∑ l, γup k l * f k l
 
